@@ -88,16 +88,23 @@ func scenario(p params, bounds []int) *vexp.Scenario {
 					}
 				}
 			}
-			for _, n := range nodes {
-				n := n
+			for ni, n := range nodes {
+				n, ni := n, ni
 				s := &vsys.Script{Name: n[strings.LastIndex(n, "/")+1:]}
 				if p.owns {
 					s.Launch = func(a *vsys.Act, ctx vivid.ActorContext) {
 						ctx.EventStream().Subscribe(ctx, tick{})
-						ctx.EventStream().Subscribe(ctx, tock{})
-						// a type nobody else holds: this actor is its last subscriber when it explicitly leaves it again
-						ctx.EventStream().Subscribe(ctx, tack{})
-						ctx.EventStream().Unsubscribe(ctx, tack{})
+						if ni%2 == 1 {
+							// every second actor holds exactly one type and "leaves" two it never held: one that other actors
+							// hold, one that nobody holds; its single subscription has to survive that and die with the actor
+							ctx.EventStream().Unsubscribe(ctx, tock{})
+							ctx.EventStream().Unsubscribe(ctx, tack{})
+						} else {
+							ctx.EventStream().Subscribe(ctx, tock{})
+							// a type nobody else holds: this actor is its last subscriber when it explicitly leaves it again
+							ctx.EventStream().Subscribe(ctx, tack{})
+							ctx.EventStream().Unsubscribe(ctx, tack{})
+						}
 						ctx.Scheduler().Loop(ctx.Ref(), time.Second, vsys.Msg{ID: "loop"}, vivid.WithSchedulerReference("L"))
 						// ... and a Once job that has already fired when the actor dies (its key sorts before the Loop's)
 						ctx.Scheduler().Once(ctx.Ref(), time.Millisecond, vsys.Msg{ID: "once"}, vivid.WithSchedulerReference("A"))
